@@ -4,11 +4,14 @@ package sim
 
 import (
 	"fmt"
+	"sort"
 	"strings"
 	"testing"
 
 	"github.com/relab/hotstuff"
+	"github.com/relab/hotstuff/twins"
 	"github.com/relab/hotstuff/verifx/common"
+	"github.com/relab/hotstuff/verifx/kit"
 	"pgregory.net/rapid"
 )
 
@@ -225,5 +228,77 @@ func TestC01FastAggregate(t *testing.T) {
 			}
 		}
 		return Case{Cfg: cfg, Steps: steps}
+	}, c01Prop)
+}
+
+// TestC01TwinsEnumerated drives the simulator with the repository's own Twins scenarios: ALL scenarios the generator
+// yields for 4 replicas, 1 twin pair, 2 partitions and 3 views (quick) / 4 views (thorough), each with one (quick) /
+// three (thorough) delivery schedules and each ruleset. Unlike twins.ExecuteScenario the delivery order is not
+// lock-step FIFO, and an unsafe outcome fails the check.
+func TestC01TwinsEnumerated(t *testing.T) {
+	views, orders := uint8(3), 1 // quick: all 5832 scenarios of 3 views, one delivery schedule each
+	if common.Tier() == "thorough" {
+		views, orders = 4, 3 // thorough: all 104,976 scenarios of 4 views, three delivery schedules each
+	}
+	limit := 1 << 30
+	common.Get("C01").Note("TestC01TwinsEnumerated", map[string]any{"settings": fmt.Sprintf("nodes=4 twins=1 partitions=2 views=%d (all scenarios of the repository's generator)", views), "orders_per_scenario": orders})
+	common.Exhaustive(t, "C01", "TestC01TwinsEnumerated", func(yield func(Case) bool) {
+		g := twins.NewGenerator(kit.Logger("gen"), twins.Settings{NumNodes: 4, NumTwins: 1, Partitions: 2, Views: views})
+		idx := func(n twins.NodeID) int {
+			if n.ReplicaID == 1 {
+				return int(n.TwinID) - 1
+			}
+			return int(n.ReplicaID)
+		}
+		for s := 0; s < limit; s++ {
+			sc, err := g.NextScenario()
+			if err != nil {
+				return
+			}
+			var bv []ViewSpec
+			for _, v := range sc {
+				vs := ViewSpec{Leader: int(v.Leader)}
+				for _, p := range v.Partitions {
+					var part []int
+					for n := range p {
+						part = append(part, idx(n))
+					}
+					sort.Ints(part)
+					vs.Partitions = append(vs.Partitions, part)
+				}
+				sort.Slice(vs.Partitions, func(i, j int) bool { return fmt.Sprint(vs.Partitions[i]) < fmt.Sprint(vs.Partitions[j]) })
+				bv = append(bv, vs)
+			}
+			for _, rs := range AllRules {
+				for order := 0; order < orders; order++ {
+					x := uint64(s*9+order*3) + 12345
+					next := func(n int) int {
+						x = x*6364136223846793005 + 1442695040888963407
+						return int((x >> 33) % uint64(n))
+					}
+					var steps []Step
+					for i := 0; i < 36; i++ {
+						switch r := next(10); {
+						case r < 5:
+							steps = append(steps, Step{K: KDeliver, A: next(40)})
+						case r < 8:
+							steps = append(steps, Step{K: KBurst, C: next(3)})
+						case r < 9:
+							steps = append(steps, Step{K: KTimeoutAll})
+						default:
+							steps = append(steps, Step{K: KTimeout, B: next(5)})
+						}
+					}
+					for i := 0; i < 5; i++ {
+						steps = append(steps, Step{K: KBurst, C: 5}, Step{K: KTimeoutAll})
+					}
+					steps = append(steps, Step{K: KBurst, C: 5}, Step{K: KBurst, C: 5})
+					cfg := Config{N: 4, Rules: rs, Crypto: "fast", Batch: 1, Twins: []int{1}, ByView: bv}
+					if !yield(Case{Cfg: cfg, Steps: steps}) {
+						return
+					}
+				}
+			}
+		}
 	}, c01Prop)
 }
